@@ -60,6 +60,16 @@ type irRange struct {
 	overName string // the ranged identifier, "" if not an identifier
 	body     []irStmt
 }
+type irMatch struct {
+	scrut string
+	arms  []irArm
+	def   []irStmt
+}
+type irArm struct {
+	pat  string
+	bind []string // names the pattern binds (enter the scope)
+	body []irStmt
+}
 type irReturn struct{ val term }
 type irBreak struct{}
 type irContinue struct{}
@@ -364,9 +374,10 @@ func (f *ftr) call(x *ast.CallExpr) term {
 				}
 				return term{"(" + p + "Ok (go_len " + v + "))", false}
 			case "make":
-				if ct, ok := coqTypeOf(f.typeOf(x.Args[0])); ok && ct == "bytes" && len(x.Args) == 2 {
+				if ct, ok := coqTypeOf(f.typeOf(x.Args[0])); ok && len(x.Args) == 2 && (ct == "bytes" || ct == "(list Z)") {
 					p, v := f.bind(f.expr(x.Args[1]))
-					return term{"(" + p + "go_make " + v + ")", false}
+					mk := map[string]string{"bytes": "go_make", "(list Z)": "go_make_ints"}[ct]
+					return term{"(" + p + mk + " " + v + ")", false}
 				}
 			}
 			f.fail(x, "unsupported builtin call %s", types.ExprString(x))
@@ -815,6 +826,13 @@ func terminates(b []irStmt) bool {
 		return true
 	case irIf:
 		return terminates(x.then) && terminates(x.els)
+	case irMatch:
+		for _, a := range x.arms {
+			if !terminates(a.body) {
+				return false
+			}
+		}
+		return terminates(x.def)
 	}
 	return false
 }
@@ -831,6 +849,11 @@ func assigned(b []irStmt, acc map[string]bool) {
 			assigned(x.els, acc)
 		case irRange:
 			assigned(x.body, acc)
+		case irMatch:
+			for _, a := range x.arms {
+				assigned(a.body, acc)
+			}
+			assigned(x.def, acc)
 		}
 	}
 }
@@ -939,6 +962,27 @@ func (f *ftr) emit(b []irStmt, k kont, scope map[string]bool) string {
 		sort.Strings(vars)
 		jk := kont{kind: 2, state: vars}
 		return "do " + tuplePat(vars) + " <- (" + p + "if " + c + " then " + f.emit(x.then, jk, scope) + "\n    else " + f.emit(x.els, jk, scope) + ");\n  " + f.emit(rest, k, scope)
+	case irMatch:
+		// every arm is continued with the rest of the list (arms that return do not reach it)
+		var bld strings.Builder
+		bld.WriteString("match " + x.scrut + " with\n")
+		for _, a := range x.arms {
+			sc := scope
+			for _, n := range a.bind {
+				sc = withName(sc, n)
+			}
+			body := a.body
+			if !terminates(body) {
+				body = append(append([]irStmt{}, body...), rest...)
+			}
+			bld.WriteString("  | " + a.pat + " => " + f.emit(body, k, sc) + "\n")
+		}
+		def := x.def
+		if !terminates(def) {
+			def = append(append([]irStmt{}, def...), rest...)
+		}
+		bld.WriteString("  | _ => " + f.emit(def, k, scope) + "\n  end")
+		return bld.String()
 	case irRange:
 		acc := map[string]bool{}
 		assigned(x.body, acc)
